@@ -28,6 +28,7 @@ import (
 	"path/filepath"
 	"sort"
 	"strings"
+	"time"
 
 	"golang.org/x/tools/go/ast/astutil"
 	"golang.org/x/tools/go/packages"
@@ -69,13 +70,17 @@ func main() {
 		h := inputHash()
 		*outDir = filepath.Join(*cacheDir, h)
 		if _, err := os.Stat(filepath.Join(*outDir, "overlay.json")); err == nil {
+			now := time.Now()
+			os.Chtimes(*outDir, now, now)
 			fmt.Println(*outDir)
 			return
 		}
-		// stale entries are useless once the tree changed: keep the cache small
-		if ents, err := os.ReadDir(*cacheDir); err == nil && len(ents) > 6 {
+		// stale entries are useless once the tree changed: drop those not touched for an hour
+		if ents, err := os.ReadDir(*cacheDir); err == nil && len(ents) > 4 {
 			for _, e := range ents {
-				os.RemoveAll(filepath.Join(*cacheDir, e.Name()))
+				if fi, err := e.Info(); err == nil && time.Since(fi.ModTime()) > time.Hour {
+					os.RemoveAll(filepath.Join(*cacheDir, e.Name()))
+				}
 			}
 		}
 		defer fmt.Println(*outDir)
@@ -84,7 +89,20 @@ func main() {
 		fmt.Fprintln(os.Stderr, "govis: -out required")
 		os.Exit(2)
 	}
-	os.MkdirAll(*outDir, 0o755)
+	finalDir := *outDir
+	writeDir := finalDir
+	if *cacheDir != "" {
+		writeDir = fmt.Sprintf("%s.tmp%d", finalDir, os.Getpid())
+		os.RemoveAll(writeDir)
+	}
+	os.MkdirAll(writeDir, 0o755)
+	defer func() {
+		if writeDir != finalDir {
+			if err := os.Rename(writeDir, finalDir); err != nil {
+				os.RemoveAll(writeDir) // somebody else finished first
+			}
+		}
+	}()
 	fullSet := map[string]bool{}
 	for _, s := range strings.Split(*fullFields, ",") {
 		if s != "" {
@@ -159,8 +177,9 @@ func main() {
 				fmt.Fprintln(os.Stderr, "govis: format", fn, err)
 				os.Exit(2)
 			}
-			out := filepath.Join(*outDir, strings.ReplaceAll(rel, "/", "__"))
-			if err := os.WriteFile(out, buf.Bytes(), 0o644); err != nil {
+			base := strings.ReplaceAll(rel, "/", "__")
+			out := filepath.Join(finalDir, base)
+			if err := os.WriteFile(filepath.Join(writeDir, base), buf.Bytes(), 0o644); err != nil {
 				fmt.Fprintln(os.Stderr, "govis:", err)
 				os.Exit(2)
 			}
@@ -174,14 +193,14 @@ func main() {
 			fmt.Fprintln(os.Stderr, "govis:", err)
 			os.Exit(2)
 		}
-		dst := filepath.Join(*outDir, "vshim.go")
-		os.WriteFile(dst, b, 0o644)
+		dst := filepath.Join(finalDir, "vshim.go")
+		os.WriteFile(filepath.Join(writeDir, "vshim.go"), b, 0o644)
 		overlay[filepath.Join(*repo, "utils/vshim/vshim.go")] = dst
 	}
 	b, _ := json.MarshalIndent(map[string]any{"Replace": overlay}, "", " ")
-	os.WriteFile(filepath.Join(*outDir, "overlay.json"), b, 0o644)
+	os.WriteFile(filepath.Join(writeDir, "overlay.json"), b, 0o644)
 	sb, _ := json.MarshalIndent(stats, "", " ")
-	os.WriteFile(filepath.Join(*outDir, "stats.json"), sb, 0o644)
+	os.WriteFile(filepath.Join(writeDir, "stats.json"), sb, 0o644)
 }
 
 // inputHash covers everything the output depends on: this binary, the shim, the flags and
